@@ -155,14 +155,11 @@ func runC09(c *eng.Ctx) {
 		}
 	}
 	if fn := c.Fn(cl + "(*deleteCleaner).applyAgeLimit"); fn != nil {
-		ok := false
-		for _, r := range eng.Returns(fn) {
-			if len(r.Results) == 2 && eng.NilConst(r.Results[1]) {
-				if sl, ok2 := r.Results[0].(*ssa.Slice); ok2 && eng.Param("segments")(sl.X) && sl.High == nil && sl.Low != nil {
-					ok = true
-				}
-			}
-		}
+		nRet, ok := allReturns(fn, errNil(1), func(rv []ssa.Value) bool {
+			sl, ok2 := rv[0].(*ssa.Slice)
+			return ok2 && eng.Param("segments")(sl.X) && sl.High == nil && sl.Low != nil
+		}, func(rv []ssa.Value) bool { return eng.Param("segments")(rv[0]) })
+		ok = ok && nRet >= 2
 		c.Check(ok, "age pass returns a suffix of its input", p.Pos(fn.Pos()), "segments[idx:]", "applyAgeLimit does not return a suffix segments[idx:]")
 	}
 	c.Floor(5)
